@@ -778,5 +778,251 @@ theorem other_slots_unchanged {c : Config α} {route : List (Branch α)} (hacc :
   intro k hk
   rw [accFrom_other hjd hjt route none _ hacc k hk, init_slot]
 
+/-! ### The terms written out, and their signs -/
+
+theorem speedTime?_eq {edges : List (EdgeRec α)} {su : SpeedUnit} {du : DistanceUnit} {tu : TimeUnit}
+    {table : List α} {e : Nat} {er : EdgeRec α} {sp : α} (her : edges[e]? = some er)
+    (hsp : table[e]? = some sp) :
+    speedTime? edges su du tu table e =
+      createTime sp su (baseDistanceUnit.convert du er.dist) du tu := by
+  simp only [speedTime?, her, hsp]
+
+theorem speedTime?_some {edges : List (EdgeRec α)} {su : SpeedUnit} {du : DistanceUnit} {tu : TimeUnit}
+    {table : List α} {e : Nat} {tv : α} (h : speedTime? edges su du tu table e = some tv) :
+    ∃ er sp, edges[e]? = some er ∧ table[e]? = some sp ∧
+      createTime sp su (baseDistanceUnit.convert du er.dist) du tu = some tv := by
+  unfold speedTime? at h
+  split at h
+  · cases h
+  · rename_i er her
+    split at h
+    · cases h
+    · rename_i sp hsp
+      exact ⟨er, sp, her, hsp, h⟩
+
+theorem timeTerm_speed_eq {edges : List (EdgeRec α)} {su : SpeedUnit} {du : DistanceUnit}
+    {tu : TimeUnit} {ms : α} {table : List α} {e : Nat} {tv : α}
+    (h : speedTime? edges su du tu table e = some tv) (ftu : TimeUnit) :
+    timeTerm (.speed su du tu ms table) edges ftu e = tu.convert ftu tv := by
+  simp only [timeTerm, h]
+
+theorem timeTerm_distance (du : DistanceUnit) (edges : List (EdgeRec α)) (ftu : TimeUnit) (e : Nat) :
+    timeTerm (.distance du) edges ftu e = 0 := rfl
+
+theorem delayTerm_turnDelay_eq {dtu : TimeUnit} {headings : List (Int × Option Int)}
+    {delays : List (Option α)} {pe ne : Nat} {d : α}
+    (h : turnDelayOf headings delays pe ne = some d) (ftu : TimeUnit) :
+    delayTerm (.turnDelay dtu headings delays) ftu pe ne = dtu.convert ftu d := by
+  simp only [delayTerm, h]
+
+theorem delayTerm_noAccess (ftu : TimeUnit) (pe ne : Nat) :
+    delayTerm (AccessModel.noAccess : AccessModel α) ftu pe ne = 0 := rfl
+
+theorem dconv_nonneg (u v : DistanceUnit) {x : α} (hx : 0 ≤ x) : 0 ≤ u.convert v x := by
+  rw [DistanceUnit.convert, Factor.apply_eq]
+  exact mul_nonneg hx (C09.ratio_cast_pos _ (C09.distance_wf u v)).le
+
+theorem tconv_nonneg (u v : TimeUnit) {x : α} (hx : 0 ≤ x) : 0 ≤ u.convert v x := by
+  rw [TimeUnit.convert, Factor.apply_eq]
+  exact mul_nonneg hx (C09.ratio_cast_pos _ (C09.time_wf u v)).le
+
+theorem tconv_pos (u v : TimeUnit) {x : α} (hx : 0 < x) : 0 < u.convert v x := by
+  rw [TimeUnit.convert, Factor.apply_eq]
+  exact mul_pos hx (C09.ratio_cast_pos _ (C09.time_wf u v))
+
+/-- with a non-negative edge length the distance term is non-negative -/
+theorem distTerm_nonneg (m : TravModel α) {edges : List (EdgeRec α)} (fu : DistanceUnit) {e : Nat}
+    (hlen : ∀ er, edges[e]? = some er → 0 ≤ er.dist) : 0 ≤ distTerm m edges fu e := by
+  unfold distTerm
+  split
+  · exact le_refl _
+  · rename_i er her
+    exact dconv_nonneg _ _ (dconv_nonneg _ _ (hlen er her))
+
+/-- whatever `create_time` returns is strictly positive (it rejects non-positive speed or length) -/
+theorem createTime_pos {s : α} {su : SpeedUnit} {d : α} {du : DistanceUnit} {tu : TimeUnit} {tv : α}
+    (h : createTime s su d du tu = some tv) : 0 < tv := by
+  rw [C09.createTime_eq] at h
+  split at h
+  · cases h
+  · rename_i hn
+    simp only [not_or, not_le] at hn
+    simp only [Option.some.injEq] at h
+    rw [← h]
+    have h1 := C09.ratio_cast_pos (α := α) _ (C09.distance_wf du baseDistanceUnit)
+    have h2 := C09.ratio_cast_pos (α := α) _ (C09.speed_wf su baseSpeedUnit)
+    have h3 := C09.ratio_cast_pos (α := α) _ (C09.time_wf baseTimeUnit tu)
+    exact mul_pos (div_pos (mul_pos hn.2 h1) (mul_pos hn.1 h2)) h3
+
+/-- the time term is never negative: no hypothesis on lengths or speeds is needed, because
+`create_time` only returns for positive speed and length -/
+theorem timeTerm_nonneg (m : TravModel α) (edges : List (EdgeRec α)) (ftu : TimeUnit) (e : Nat) :
+    0 ≤ timeTerm m edges ftu e := by
+  unfold timeTerm
+  split
+  · exact le_refl _
+  · split
+    · exact le_refl _
+    · rename_i tv htv
+      obtain ⟨er, sp, _, _, hct⟩ := speedTime?_some htv
+      exact tconv_nonneg _ _ (createTime_pos hct).le
+
+/-- the configured turn delays are non-negative -/
+def DelaysNonneg : AccessModel α → Prop
+  | .noAccess => True
+  | .turnDelay _ _ delays => ∀ d, some d ∈ delays → 0 ≤ d
+
+theorem turnDelayOf_mem {headings : List (Int × Option Int)} {delays : List (Option α)} {pe ne : Nat}
+    {d : α} (h : turnDelayOf headings delays pe ne = some d) : some d ∈ delays := by
+  unfold turnDelayOf at h
+  split at h
+  · split at h
+    · cases h
+    · split at h
+      · rename_i d' hd
+        simp only [Option.some.injEq] at h
+        subst h
+        exact List.mem_of_getElem? hd
+      · cases h
+  · cases h
+
+theorem delayTerm_nonneg {m : AccessModel α} (hm : DelaysNonneg m) (ftu : TimeUnit) (pe ne : Nat) :
+    0 ≤ delayTerm m ftu pe ne := by
+  unfold delayTerm
+  split
+  · exact le_refl _
+  · split
+    · exact le_refl _
+    · rename_i d hd
+      exact tconv_nonneg _ _ (hm d (turnDelayOf_mem hd))
+
+theorem stepDelay_nonneg {c : Config α} (hm : DelaysNonneg c.access) (ftu : TimeUnit)
+    (last : Option Nat) (e : Nat) : 0 ≤ stepDelay c ftu last e := by
+  cases last with
+  | none => exact le_refl _
+  | some l => exact delayTerm_nonneg hm ftu _ _
+
+/-! ### 3. Monotonicity -/
+
+/-- with non-negative edge lengths the distance slot never decreases: not from the initial state to
+the first element, not from any element to the next -/
+theorem route_distance_monotone {c : Config α} {route : List (Branch α)} (hacc : Accumulates c route)
+    {i : Nat} {fu : DistanceUnit} (hs : DistSlot c.feats i fu)
+    (hlen : ∀ er ∈ c.edges, 0 ≤ er.dist) :
+    (∀ (hr : 0 < route.length) x y, (initialState c.feats)[i]? = some x →
+        route[0].state[i]? = some y → x ≤ y) ∧
+    ∀ k (hk : k + 1 < route.length) x y, route[k].state[i]? = some x →
+        route[k + 1].state[i]? = some y → x ≤ y := by
+  have hterm : ∀ e, 0 ≤ distTerm c.trav c.edges fu e := fun e =>
+    distTerm_nonneg _ _ (fun er her => hlen er (List.mem_of_getElem? her))
+  refine ⟨?_, ?_⟩
+  · intro hr x y hx hy
+    rw [step_dist hs (hacc.head hr) x hx] at hy
+    cases hy
+    exact le_add_of_nonneg_right (hterm _)
+  · intro k hk x y hx hy
+    rw [step_dist hs (hacc.getElem k hk) x hx] at hy
+    cases hy
+    exact le_add_of_nonneg_right (hterm _)
+
+/-- with non-negative configured delays the time slot never decreases (table speeds and lengths need
+no hypothesis: a run in which `create_time` met a non-positive speed or length did not succeed) -/
+theorem route_time_monotone {c : Config α} {route : List (Branch α)} (hacc : Accumulates c route)
+    {t : Nat} {ftu : TimeUnit} (hs : TimeSlot c.feats t ftu) (hdel : DelaysNonneg c.access) :
+    (∀ (hr : 0 < route.length) x y, (initialState c.feats)[t]? = some x →
+        route[0].state[t]? = some y → x ≤ y) ∧
+    ∀ k (hk : k + 1 < route.length) x y, route[k].state[t]? = some x →
+        route[k + 1].state[t]? = some y → x ≤ y := by
+  have hterm : ∀ last e, 0 ≤ timeTerm c.trav c.edges ftu e + stepDelay c ftu last e := fun last e =>
+    add_nonneg (timeTerm_nonneg _ _ _ _) (stepDelay_nonneg hdel _ _ _)
+  refine ⟨?_, ?_⟩
+  · intro hr x y hx hy
+    rw [step_time hs (hacc.head hr) x hx] at hy
+    cases hy
+    exact le_add_of_nonneg_right (hterm _ _)
+  · intro k hk x y hx hy
+    rw [step_time hs (hacc.getElem k hk) x hx] at hy
+    cases hy
+    exact le_add_of_nonneg_right (hterm _ _)
+
+/-- under the speed-table model the time slot strictly increases on every edge -/
+theorem route_time_strict {c : Config α} {route : List (Branch α)} (hacc : Accumulates c route)
+    {t : Nat} {ftu : TimeUnit} (hs : TimeSlot c.feats t ftu) (hdel : DelaysNonneg c.access)
+    {su : SpeedUnit} {du : DistanceUnit} {tu : TimeUnit} {ms : α} {table : List α}
+    (htrav : c.trav = .speed su du tu ms table) :
+    ∀ k (hk : k + 1 < route.length) x y, route[k].state[t]? = some x →
+        route[k + 1].state[t]? = some y → x < y := by
+  intro k hk x y hx hy
+  rw [step_time hs (hacc.getElem k hk) x hx] at hy
+  cases hy
+  obtain ⟨tv, htv⟩ := route_times_defined hacc htrav (k + 1) hk
+  obtain ⟨er, sp, _, _, hct⟩ := speedTime?_some htv
+  have h1 : 0 < timeTerm c.trav c.edges ftu route[k + 1].edge := by
+    rw [htrav, timeTerm_speed_eq htv]
+    exact tconv_pos _ _ (createTime_pos hct)
+  have h2 := stepDelay_nonneg hdel ftu (some route[k].edge) route[k + 1].edge
+  linarith
+
+/-- **3.** distance and time never decrease along the route -/
+theorem route_monotone {c : Config α} {route : List (Branch α)} (hacc : Accumulates c route)
+    {i : Nat} {fu : DistanceUnit} (hd : DistSlot c.feats i fu)
+    {t : Nat} {ftu : TimeUnit} (ht : TimeSlot c.feats t ftu)
+    (hlen : ∀ er ∈ c.edges, 0 ≤ er.dist) (hdel : DelaysNonneg c.access) :
+    ∀ k (hk : k + 1 < route.length),
+      (∀ x y, route[k].state[i]? = some x → route[k + 1].state[i]? = some y → x ≤ y) ∧
+      (∀ x y, route[k].state[t]? = some x → route[k + 1].state[t]? = some y → x ≤ y) :=
+  fun k hk => ⟨(route_distance_monotone hacc hd hlen).2 k hk,
+    (route_time_monotone hacc ht hdel).2 k hk⟩
+
+/-! ### 5. The summary -/
+
+theorem prefixEdges_last (route : List (Branch α)) :
+    prefixEdges route (route.length - 1) = route.map (·.edge) := by
+  unfold prefixEdges
+  rw [List.take_of_length_le (by omega)]
+
+/-- the route summary is the state of the last element -/
+theorem summary_is_last_state {route : List (Branch α)} (hne : route ≠ []) :
+    routeSummary route =
+      some (route[route.length - 1]'(by
+        have := List.length_pos_of_ne_nil hne; omega)).state := by
+  have hpos := List.length_pos_of_ne_nil hne
+  simp only [routeSummary, List.getLast?_eq_getElem?]
+  rw [List.getElem?_eq_getElem (by omega)]
+  rfl
+
+/-- … hence the closed forms at `k = n`: the summary's distance is the initial value plus the sum
+over all edges of the route, its time the initial value plus all traversal times and all turn
+delays, every other slot the initial value -/
+theorem summary_closed_form {c : Config α} {route : List (Branch α)} (hacc : Accumulates c route)
+    (hne : route ≠ []) {i : Nat} {fu : DistanceUnit} (hd : DistSlot c.feats i fu)
+    {t : Nat} {ftu : TimeUnit} (ht : TimeSlot c.feats t ftu) :
+    ∃ s fd ft, routeSummary route = some s ∧ c.feats[i]? = some fd ∧ c.feats[t]? = some ft ∧
+      s[i]? = some (fd.init + ((route.map (·.edge)).map (distTerm c.trav c.edges fu)).sum) ∧
+      s[t]? = some (ft.init + ((route.map (·.edge)).map (timeTerm c.trav c.edges ftu)).sum
+            + ((pairs (route.map (·.edge))).map (fun p => turnDelayTerm c ftu p.1 p.2)).sum) ∧
+      ∀ j, featIndex c.feats "distance" ≠ some j → featIndex c.feats "time" ≠ some j →
+        s[j]? = (c.feats[j]?).map (·.init) := by
+  have hpos := List.length_pos_of_ne_nil hne
+  have hk : route.length - 1 < route.length := by omega
+  obtain ⟨fd, hfd, _, hdist⟩ := route_distance_is_sum hacc hd
+  obtain ⟨ft, hft, htime⟩ := route_time_is_sum hacc ht
+  refine ⟨_, fd, ft, summary_is_last_state hne, hfd, hft, ?_, ?_, ?_⟩
+  · rw [hdist _ hk, prefixEdges_last]
+  · rw [htime _ hk, prefixEdges_last]
+  · intro j hjd hjt
+    exact other_slots_unchanged hacc hjd hjt _ hk
+
+/-- the same for a configuration with only a distance feature -/
+theorem summary_distance {c : Config α} {route : List (Branch α)} (hacc : Accumulates c route)
+    (hne : route ≠ []) {i : Nat} {fu : DistanceUnit} (hd : DistSlot c.feats i fu) :
+    ∃ s fd, routeSummary route = some s ∧ c.feats[i]? = some fd ∧
+      s[i]? = some (fd.init + ((route.map (·.edge)).map (distTerm c.trav c.edges fu)).sum) := by
+  have hpos := List.length_pos_of_ne_nil hne
+  have hk : route.length - 1 < route.length := by omega
+  obtain ⟨fd, hfd, _, hdist⟩ := route_distance_is_sum hacc hd
+  refine ⟨_, fd, summary_is_last_state hne, hfd, ?_⟩
+  rw [hdist _ hk, prefixEdges_last]
+
 end RouteSums
 end Compass
